@@ -106,6 +106,13 @@ CLAIMED = {
         "Exact boundary behaviour after arbitrary histories of limit raises is declined; the exemption table is part of the rule (rules/c07.py:EXEMPT).",
         "DESIGN.md#c07",
     ),
+    "C01": (
+        "other",
+        "inverse-operation pairing between every frame writer's consumption and its delivery handler's re-arming (a table of nine pairs confirmed by reading, each side located and checked on the AST), exhaustiveness of handler registration over all start_frame call sites with frame types resolved through callers, CFG dominance / reachability for consume-after-emit ordering and for parse-before-lookup in frame handlers, guard extraction for duplicate suppression and the receiver's direct-delivery shortcut",
+        "Decides the structural necessary conditions of reliable exactly-once delivery on all paths: no reliable frame is written without a handler; what a writer consumes is exactly what the handler restores on loss (from the handler's own arguments) and what the scheduler tests again; pending state is consumed only when emission is certain; a duplicated packet is dropped before any frame of it is handled; the loss timer reaches detection or the probe path; frame handlers cannot desynchronise the frame parser; the in-order shortcut requires an empty reassembly buffer.",
+        "Prefix / no-gap / no-repeat delivery of bytes and liveness are declined (relations over runtime byte strings and schedules). The pairing table is part of the rule; a new handler or a changed consumption makes the check fail until the table is re-confirmed.",
+        "DESIGN.md#c01",
+    ),
 }
 
 NOT_APPLICABLE = {
